@@ -30,6 +30,14 @@ ASSUMPTIONS = [
 EXPLANATION = "exhaustive boolean matrix + generated numeric/string/multi-parameter cases over 5 routes"
 
 NON_PARAMS = {"name", "data", "cn_region", "cn_solution", "neutral_value"}
+# the documented type of every model parameter (docstrings of aldy/profile.py: "Default: 21.0", "Default: 2", ...), written down here
+# so that the oracle does not follow a default literal that silently changes type in the code
+DOCUMENTED = {'gap': 'float', 'threshold': 'float', 'min_coverage': 'float', 'min_quality': 'int', 'min_mapq': 'int', 'phase': 'bool',
+              'sam_long_reads': 'bool', 'sam_mappy_preset': 'str', 'cn_max': 'int', 'cn_pce_penalty': 'float', 'cn_diff': 'float',
+              'cn_fit': 'float', 'cn_parsimony': 'float', 'cn_fusion_left': 'float', 'cn_fusion_right': 'float', 'major_novel': 'float',
+              'minor_miss': 'float', 'minor_add': 'float', 'minor_phase': 'float', 'minor_phase_vars': 'int', 'male': 'bool',
+              'max_minor_solutions': 'int', 'display_format': 'bool', 'debug_probe': 'str', 'debug_novel': 'bool',
+              'min_avg_coverage': 'float', 'vcf_sample_idx': 'int', 'indelpost': 'bool'}
 
 _cache = {}
 
@@ -45,7 +53,7 @@ def _env():
     for k, v in vars(p).items():
         if k in NON_PARAMS:
             continue
-        table[k] = type(v).__name__
+        table[k] = DOCUMENTED.get(k, type(v).__name__)  # parameters added later are typed by their default
     _cache["table"] = table
     _cache["defaults"] = {k: getattr(p, k) for k in table}
     _cache["toy"] = script_path("aldy.tests.resources/toy.yml")
